@@ -93,12 +93,12 @@ Section Edge.
   (* an element is only ever produced for an index inside the array *)
   Theorem index_is_checked ev ex fns cls depth s a i v s' :
     eval_step O fns cls depth ev ex s (EIndex a i) = Ok (v, s') ->
-    exists va s1 vi t l k, ev s a = Ok (va, s1) /\ ev s1 i = Ok (vi, s') /\ va = VArr t l /\ index_of vi = Some k /\
+    exists va s1 vi t l k, ev s a = Ok (va, s1) /\ ev s1 i = Ok (vi, s') /\ va = VArr t l /\ index_of O vi = Some k /\
                            0 <= k < Z.of_nat (List.length l) /\ nth_error l (Z.to_nat k) = Some v.
   Proof.
     cbn [eval_step]. destruct (ev s a) as [[va s1]| |] eqn:Ea; cbn [bind]; try discriminate.
     destruct (ev s1 i) as [[vi s2]| |] eqn:Ei; cbn [bind]; try discriminate.
-    destruct va; try discriminate. destruct (index_of vi) as [k|] eqn:K; try discriminate.
+    destruct va; try discriminate. destruct (index_of O vi) as [k|] eqn:K; try discriminate.
     destruct ((k <? 0) || (Z.of_nat (List.length l) <=? k)) eqn:B; [discriminate|].
     destruct (nth_error l (Z.to_nat k)) eqn:N; [|discriminate].
     intro H; inversion H; subst. exists (VArr t l), s1, vi, t, l, k.
